@@ -7,6 +7,7 @@ CONSTANTS
   Nest = TRUE
   MaxDel = 1
   Merge = FALSE
+  Script <- NoScript
   Dups = FALSE
   MaxSnaps = 2
 SPECIFICATION SpecS
